@@ -24,6 +24,8 @@ EFFECT = {
     "read_gamma": ("len", "gamma"), "read_delta": ("len", "delta"), "read_zeta": ("len", "zeta"), "read_zeta3": ("len", "zeta"),
     "write_bits": "ok", "write_unary": "ok", "flush": 0, "write_gamma": "ok", "write_delta": "ok", "write_zeta": "ok", "write_zeta3": "ok",
     "bit_pos": 0, "set_bit_pos": 0,
+    # bulk copies move n bits (the provided defaults do it through the counted primitives; an override must count them itself)
+    "copy_to": ("arg", 3), "copy_from": ("arg", 3),
 }
 
 
@@ -118,6 +120,9 @@ def run(chk, F, tier):
             if not ok_ret:
                 probs.append("returns %s, not the inner result" % mir.fmt(r))
             # ---- counters
+            if counter is not None and name not in EFFECT:
+                cprobs.append("the stream effect of `%s` is not declared in the checker: the counter cannot be judged" % name)
+                continue
             if counter is None or name not in EFFECT:
                 continue
             is_err_path = r == ("from_residual", ("residual", res))
